@@ -392,8 +392,14 @@ sort_function_table (program_t * prog)
 
   if (prog->type_start)
     {
+      /* permute through a copy: assigning in place overwrites entries that are still to be read */
+      unsigned short *old_start =
+        CALLOCATE (num, unsigned short, TAG_TEMPORARY, "sort_function_table: type_start");
+
+      memcpy (old_start, prog->type_start, num * sizeof (unsigned short));
       for (i = 0; i < num; i++)
-        prog->type_start[i] = prog->type_start[temp[i]];
+        prog->type_start[i] = old_start[temp[i]];
+      FREE (old_start);
     }
 
   FREE (sorttmp);
